@@ -20,6 +20,7 @@ type verifReplayState struct {
 	Vector  []uint64       `json:"vector"`
 	Kinds   []string       `json:"kinds"`
 	Params  map[string]int `json:"params"`
+	Known   []string       `json:"known_open"`
 	pos    int
 	Fails  []string
 	Logs   []string
@@ -106,7 +107,13 @@ func verifAssert(c bool, tag string) {
 // recorded known finding id.
 func verifAssertK(ok bool, id string, region bool, tag string) {
 	if !ok {
-		if region {
+		open := false
+		for _, k := range verifRS.Known {
+			if k == id {
+				open = true
+			}
+		}
+		if region && open {
 			verifRS.Fails = append(verifRS.Fails, "KNOWN:"+id+":"+tag)
 			panic(verifAssumeFailed{})
 		}
